@@ -70,6 +70,7 @@ func writeAbstractWriter(w *formatting.IndentedWriter, p *dsl.ProtocolDefinition
 					w.WriteStringln("try:")
 					w.Indented(func() {
 						w.WriteStringln("self._end_stream()")
+						fmt.Fprintf(w, "self._state = %d\n", len(p.Sequence)*2)
 						w.WriteStringln("return")
 					})
 					w.WriteStringln("finally:")
